@@ -133,6 +133,7 @@ func genFrame(r *gen.Rand, c *Case) {
 	}
 	c.Payload = hex.EncodeToString(payload)
 	c.seed = r.Uint64()
+	c.Seed = c.seed
 }
 
 func runFrame(c *Case) {
